@@ -60,7 +60,8 @@ CHECKS = {
              "that a valid description is accepted, every reported rectangle is inside the die, a free point is strictly inside at "
              "most one and (if in the die) in the closure of at least one, areas sum to the die, every input region is reported "
              "unchanged with its tag in its own list; invalid descriptions (sticking out, overlapping) are rejected on every path.",
-        note="<=2 regions quick / 3 thorough from generated placements over symbolic breakpoints; fixed regions come through the "
+        note="<=2 regions quick / 3 thorough from generated placements over symbolic breakpoints, plus concrete-geometry families (all 60 tag orders of 3 regions, "
+             "region lists of every length 4..8, netlists made of terminals with the design's own tolerances); fixed regions come through the "
              "real Netlist loader; exact reals with margin 0.01; in addition a binary64 kernel (QF_BVFP, z3+cvc5) runs the real inside test of Die._check_rectangles on decimal coordinates n/10, n/100 (n < 2^8 quick, 2^10-2^11 thorough) and proves that a region mathematically inside or touching the border is never judged outside.",
         design="5/C01"),
     'C11': dict(
@@ -93,10 +94,11 @@ CHECKS = {
     'C10': dict(
         text="The real glbfloor / optimize_allocation / extract_solution run with GEKKO replaced by a recording contract stub: every "
              "optimiser variable is a symbolic real within its bounds and, when solve() returns, holds an arbitrary point satisfying "
-             "the posted linear equations. On every returning path z3 proves: returned cells inside the die and non-overlapping (free "
+             "the posted linear equations - or the solver fails to converge (symbolic outcome): solve() then raises when debug>=1 and "
+             "returns silently with arbitrary values when debug=0. Both the plain and the visualising mode are run. On every returning path z3 proves: returned cells inside the die and non-overlapping (free "
              "point), ratios in [0,1], no cell over 100%, centres in the die, fixed modules unchanged and sole full owners of their "
              "cells, movable hard modules translated (mirrored only if flippable) with unchanged shapes.",
-        note="4 (9) concrete instances, threshold/alpha symbolic; solver tolerance and the nonlinear equations are not modelled "
+        note="6 (9) concrete instances + 2 in visualising mode (solver-iteration budget 2 instead of 100), threshold/alpha symbolic; solver tolerance and the nonlinear equations are not modelled "
              "(weakening); outcomes on which glbfloor raises instead of returning are outside the property.",
         design="5/C10"),
     'C19': dict(
@@ -125,7 +127,9 @@ CHECKS = {
              "detection, overlap ratios, Allocation constructor) with module rectangle positions/widths symbolic: z3 proves for every "
              "refinable cell and module ratio*cell-area = sum of overlaps against an independent min/max formula, listing iff "
              "overlap>0 (or always with include-zero), full ownership of fixed cells by their module and absence elsewhere, and "
-             "allocated area = shape area on refinable cells.",
+             "allocated area = shape area on refinable cells. A second family allocates, moves the modules in place by a symbolic "
+             "displacement (centre update / recenter_rectangles, as the placement tools do) and allocates again: the same obligations "
+             "must hold for the moved design.",
         note="concrete 12x4 dies with <=1 region (also refined), one symbolic module at a time, plus symbolic-die cases with a "
              "concrete module; one axis symbolic; terminals and self-overlapping modules outside.",
         design="5/C03"),
@@ -151,7 +155,9 @@ CHECKS = {
              "fixed modules unmoved, every movable centre inside the die after an iteration (the inductive step for any iteration "
              "count), nothing but centres changed, and equal results for two runs on equal designs. force_algorithm is executed with "
              "arbitrary cost values for the 12 spring constants (2048 paths): the final layout uses the first spring constant "
-             "attaining the smallest cost, on the original die. A binary64 kernel (QF_FP) proves the centre of a fixed module is "
+             "attaining the smallest cost, on the original die; a second family moves the candidates' centres to symbolic positions and "
+             "reads the REAL Netlist.wire_length (with and without a read of the input's wire length before the relocation): the "
+             "chosen layout must minimise overlap + half the wire length as defined. A binary64 kernel (QF_FP) proves the centre of a fixed module is "
              "bit-for-bit unchanged.",
         note="2 modules (3 in the thorough tier), one axis of the die symbolic; uninterpreted mul/div/sqrt over-approximate the "
              "path set; finiteness of the centres and more than one unrolled iteration are not decided.",
@@ -163,7 +169,8 @@ CHECKS = {
              "spectral_layout_die with the numeric kernels replaced by arbitrary-valued stubs and normalize by contract N: final "
              "coordinates of movable nodes are within size/2 - radius and fixed nodes keep their coordinate, for one more iteration "
              "from any state; (wrap-up) the real Spectral.spectral_layout for 0..3 trials: disc of every movable module inside the "
-             "die, fixed modules untouched, hard modules translated rigidly, areas and nets unchanged.",
+             "die, fixed modules untouched, hard modules translated rigidly, areas unchanged and nets equal to the input document "
+             "(2-, 3- and 4-pin nets, symbolic weight).",
         note="n<=3 (4) entries, 3 nodes, 5 modules; convergence, the iteration cap, entries below 1e-9 before scaling and RNG "
              "internals are outside.",
         design="5/C14"),
@@ -181,7 +188,9 @@ CHECKS = {
              "cvc5 portfolio): every exception site (arccosine domain, zero divisor, overflow of **) is proved unreachable and the "
              "result finite, for all radii in [1e-6,1e6] and every centre distance satisfying the contract of Point.norm, which is "
              "proved on the real Point.__sub__/norm for coordinates in [-1e6,1e6]. Symmetry and the case structure (0 iff far "
-             "apart, disc area iff nested) are proved over the reals with uninterpreted acos and sin(acos t)=sqrt(1-t^2).",
+             "apart, disc area iff nested) are proved over the reals with Ackermannised uninterpreted acos/asin (range, monotonicity, "
+             "principal-value identities; sin(acos t)=sqrt(1-t^2)); an obligation answered `unknown` is followed by a pinned "
+             "counterexample search and otherwise makes the check exit 2.",
         note="Bounded/accurate clauses are NOT decided (transcendental reasoning). x**2 modelled as fl(x*x), **0.5 as correctly "
              "rounded sqrt; acos/sin results arbitrary in their ranges; assume-guarantee cut at Point.norm.",
         technique="symbolic execution of the real Python code on binary64 proxies + QF_FP solving (z3, cvc5), and on real proxies + z3 NRA",
